@@ -734,6 +734,11 @@ class IoContract(Generic[TermList_t]):
         (g2, used) = g2_t.elim_vars_by_relaxing(g1_t, intvars, simplify, tactics_order)
         tactics_used.append(used)
         allguarantees = g1 | g2
+        # Each side was relaxed and simplified in the context of the other side, so a constraint
+        # that both sides imply may have been removed from both. Keep the constraints of the
+        # operands that need no elimination; the redundant ones are simplified away below.
+        allguarantees = allguarantees | (self.g - self.g.get_terms_with_vars(intvars))
+        allguarantees = allguarantees | (other.g - other.g.get_terms_with_vars(intvars))
         (allguarantees, used) = allguarantees.elim_vars_by_relaxing(assumptions, intvars, simplify, tactics_order)
         tactics_used.append(used)
 
